@@ -5071,10 +5071,11 @@ bracket_addr_ok(const char *s, const char *eos)
 }
 
 static int
-parse_authority(struct evhttp_uri *uri, char *s, char *eos, unsigned *flags)
+parse_authority(struct evhttp_uri *uri, char *s, char **eosp, unsigned *flags)
 {
 	size_t len;
 	char *cp, *port;
+	char *eos = *eosp;
 
 	EVUTIL_ASSERT(eos);
 	if (eos == s) {
@@ -5108,6 +5109,13 @@ parse_authority(struct evhttp_uri *uri, char *s, char *eos, unsigned *flags)
 		if (e) {
 			*e = '\0';
 			uri->unixsocket = mm_strdup(cp + 5);
+			if (uri->unixsocket == NULL) {
+				event_warn("%s: strdup", __func__);
+				return -1;
+			}
+			/* the socket path may contain '/', so the authority
+			 * really ends at the colon that closes it */
+			*eosp = e + 1;
 			return 0;
 		} else {
 			return -1;
@@ -5289,7 +5297,7 @@ evhttp_uri_parse_with_flags(const char *source_uri, unsigned flags)
 		readp += 2;
 		authority = readp;
 		path = end_of_authority(readp);
-		if (parse_authority(uri, authority, path, &uri->flags) < 0)
+		if (parse_authority(uri, authority, &path, &uri->flags) < 0)
 			goto err;
 		readp = path;
 		got_authority = 1;
@@ -5381,7 +5389,7 @@ evhttp_uri_parse_authority(char *source_uri, unsigned flags)
 	uri->flags = flags;
 
 	end = end_of_authority(source_uri);
-	if (parse_authority(uri, source_uri, end, &uri->flags) < 0)
+	if (parse_authority(uri, source_uri, &end, &uri->flags) < 0)
 		goto err;
 
 	uri->path = mm_strdup("");
